@@ -17,7 +17,7 @@ import obs
 import rt
 import c09
 
-ERRORS = {"default": ["ENOSPC", "EIO", "EACCES"], "write": ["ENOSPC", "EINTR", "EIO", "EBADF", "EACCES", "EAGAIN", "EFBIG", "EDQUOT", "EPERM", "EROFS"],
+ERRORS = {"default": ["ENOSPC", "EIO", "EACCES"], "write": ["ENOSPC", "EINTR", "RET0", "EIO", "EBADF", "EACCES", "EAGAIN", "EFBIG", "EDQUOT", "EPERM", "EROFS"],
           "pwrite64": ["ENOSPC", "EINTR"], "mkdir": ["ENOSPC", "EACCES", "EEXIST", "ENOTDIR", "EIO"],
           "openat": ["ENOSPC", "EACCES", "ENOENT", "EMFILE", "EIO", "EINTR", "ENFILE", "EROFS", "EDQUOT", "ENOMEM", "ELOOP"], "read": ["EIO", "EINTR", "EACCES", "EBADF", "EAGAIN", "EISDIR"], "close": ["EIO", "ENOSPC", "EBADF", "EINTR", "EDQUOT"],
           "unlink": ["EACCES", "EIO", "EBUSY"], "rmdir": ["EACCES", "EBUSY", "EIO"], "newfstatat": ["EACCES", "EIO"],
@@ -87,8 +87,11 @@ def run_point(arg):
             if onpath:
                 base_ = env["OVNI_TMPDIR"] if onpath.startswith("TMP/") else os.path.join(wd, "trace")
                 paths = [os.path.join(base_, onpath.split("/", 1)[1])]
+            spec = "%s:error=%s:when=%d" % (sc, err, k)
+            if err == "RET0":
+                spec = "%s:retval=0:when=%d" % (sc, k)      # the call transfers nothing and reports no error
             r = rt.run_script(drv, script, wd, env=env, timeout=120, inline=not onpath,
-                              wrapper=inject.strace_argv(log, "%s:error=%s:when=%d" % (sc, err, k), paths=paths))
+                              wrapper=inject.strace_argv(log, spec, paths=paths))
             res["fired"] = inject.fired_error(log)
         if r.timeout:
             res["fired"] = False
